@@ -276,7 +276,7 @@ def sem_oracle(k, s):
     if fl is not None:
         FLAT_STATS["defined"] = FLAT_STATS.get("defined", 0) + 1
         if toks(o).get("status") == "0" and toks(o).get("out") != fl:
-            return "the flat shell model of the C01 theorems (Sem/FlatSem.v) prints %r, /bin/bash prints %r" % (hexs(fl)[:300], hexs(toks(o).get("out", ""))[:300])
+            return "the flat shell model of the C01/C02 theorems (Sem/FlatLoop.v) prints %r, /bin/bash prints %r" % (hexs(fl)[:300], hexs(toks(o).get("out", ""))[:300])
     if obs_equal("run", o, spec):
         return None
     return "Bash run differs from the reference semantics: expected %s" % spec[:600]
@@ -352,7 +352,9 @@ def run_c01(ctx, ck):
 
 
 def run_c02(ctx, ck):
+    IGNORED_KEYS.add("flat")
     run_sem(ctx, ck, ["sem-funcs"], [sem_oracle], 1200, 8000)
+    ctx.cov["flat_shell_model_with_call_oracle_validated_against_bash"] = FLAT_STATS.get("defined", 0)
 
 
 def run_c03(ctx, ck):
